@@ -176,6 +176,16 @@ def cases(M):
             v["days"] = sgn * (999999999 + r.randrange(1, 300 * abs(v["years"])))
             v["hours"] = r.choice((0, sgn * 5))
             v["seconds"] = r.choice((0, sgn * 7))
+            if j % 32 == 6:
+                # the same with years / months / days whose own magnitude passes 2^31 (millions of years, 10^8 months,
+                # billions of days) while the timedelta of the whole stays representable
+                y_ = r.choice((0, r.randrange(-10**7, 10**7)))
+                mo_ = r.choice((0, r.randrange(-10**8, 10**8), r.randrange(-3 * 10**9, 3 * 10**9)))
+                tot_ = r.randrange(-999999000, 999999000)
+                v["years"], v["months"] = y_, mo_
+                v["days"] = tot_ - (365 * y_ + 30 * mo_)
+                if r.random() < 0.3:
+                    v["weeks"], v["days"] = v["days"] // 7, v["days"] % 7
         elif mode == 5 and j % 16 == 5:
             # years/months cancelled to within a day by days/weeks of the opposite sign: the whole value as a timedelta is
             # tiny (native days 0 or -1) while the part excluding years and months is not
